@@ -596,6 +596,10 @@ func (x *Exec) evalSlice(s *State, n *ast.SliceExpr) *Term {
 		inb := And(Cmp("<=", IntLit(0), lo), Cmp("<=", lo, hi), Cmp("<=", hi, mx), Cmp("<=", mx, Field(sv, 3)))
 		x.oblige(s, "slice", inb, n.Pos(), exprString(n))
 		s.assume(inb)
+		if st, ok := bt.Underlying().(*types.Slice); ok && x.eng.usedWf && x.eng.tm.sortOf(st.Elem()) == SReal {
+			a, o, ln := x.seqOf(s, sv)
+			x.wfSliceRule(s, a, o, ln, lo, hi)
+		}
 		return Mk(SliceSort, Field(sv, 0), Arith("+", Field(sv, 1), lo), Arith("-", hi, lo), Arith("-", mx, lo))
 	case *types.Basic:
 		str := x.eval(s, n.X)
